@@ -19,7 +19,7 @@ LEVEL = "exploration"
 TECHNIQUE = "runtime monitors on bank constructors and responses against an independent layout oracle (own scale formulas, per-bin triangles, fitted peak / 3 dB / ERB / L2 norm)"
 RULE = (
     "banks: seeded (class in tri/fbank/gabor/gammatone, scale in mel/bark/linear/octave with random parameters, 1-40 filters, rates 2000-44100 incl. odd, "
-    "low_hz incl. 0, high_hz incl. default and floor(Nyquist), analytic / erb / scale_l2_norm / order 1-8 / max_centered); filter probes: first, last and a "
+    "low_hz incl. 0, high_hz incl. default and floor(Nyquist), analytic / erb / scale_l2_norm / order 1-8 / max_centered), every seventh probed through a deep copy / pickle round trip / shallow copy; filter probes: first, last and a "
     "random filter; invalid ranges for the rejection contract; non-trivial = a Gabor/gammatone probe whose support is < rate/2 (gain, bandwidth checks "
     "apply) or a triangular/Fbank per-bin comparison with >= 3 non-zero bins; distinct by (bank configuration, filter, width)"
 )
